@@ -406,7 +406,9 @@ const REC_B_RANGES: &[(u64, u32)] = &[(0x30, 0x10), (0x00, 0x10), (0x20, 0x20), 
 const REC_LOOKUPS: &[u64] = &[0x07, 0x08, 0x0f, 0x10, 0x17, 0x18, 0x1f, 0x20, 0x2f, 0x30, 0x37, 0x38, 0x3f, 0x40];
 const SZ_A: Sizes = Sizes { params: 4, saved: 8, locals: 0x10 };
 const SZ_B: Sizes = Sizes { params: 8, saved: 4, locals: 0x20 };
-const REC_PROG: &str = "$eip .raSearch ^ = $esp .raSearch 4 + = $ebx .cbLocals =";
+// reads the callee's %ebx first: with %ebx unknown the program fails, while an FPO record (for which %ebx is
+// optional) would still unwind
+const REC_PROG: &str = "$T0 $ebx = $eip .raSearch ^ = $esp .raSearch 4 + = $ebx .cbLocals =";
 /// (type char, has_program digit, is program string)
 const REC_B_KINDS: &[(char, u8, bool)] = &[('0', 0, false), ('4', 1, true), ('1', 0, false), ('4', 0, false), ('0', 1, true), ('2', 1, true)];
 
@@ -438,7 +440,8 @@ fn records_space() -> Space {
     let run = move |idx: u64, l: &mut Local| {
         let (text, recs) = gen(idx);
         let sf = parse(&text);
-        let c = Callee { esp: Some(0x1000), ebp: Some(0x1010), ebx: Some(5), eip: 0x15, gc: false, gcps: 0 };
+        // two callee states: every register known, and %ebx unknown (the frame-data program reads it, FPO does not need it)
+        for c in [Callee { esp: Some(0x1000), ebp: Some(0x1010), ebx: Some(5), eip: 0x15, gc: false, gcps: 0 }, Callee { esp: Some(0x1000), ebp: Some(0x1010), ebx: None, eip: 0x15, gc: false, gcps: 0 }] {
         for &rel in REC_LOOKUPS {
             let (exp, what) = match refwin::select(&recs, rel) {
                 Selected::None => (WinExpect::Fail("no-record-covers-address"), "no record"),
@@ -446,17 +449,18 @@ fn records_space() -> Space {
                 Selected::Record(r, fpo_too) => {
                     let e = refwin::eval_record(&r, &c);
                     let form = if matches!(r.kind, WinKind::Fpo(_)) { "fpo record" } else { "framedata record" };
-                    if fpo_too && matches!(e, WinExpect::Fail(_)) {
-                        (WinExpect::Open("framedata-fails-fpo-also-covers"), "open")
-                    } else {
-                        (e, form)
-                    }
+                    // "Preferentially use framedata over fpo ... If STACK WIN failed, try STACK CFI" (mod.rs,
+                    // walk_frame): a frame-data record that fails is not replaced by the FPO record for the same
+                    // address; these files carry no STACK CFI, so the unwind fails
+                    let _ = fpo_too;
+                    (e, form)
                 }
             };
             let (res, m) = walk(l, &sf, rel, c);
             l.outcome(&format!("two records: {what} selected -> {}", label("", &exp).trim_start_matches(": ")));
             l.distinct(&("records", &text, rel));
-            compare(l, "record-selection", &exp, res, &m, &|| json!({"file": text, "lookup_rel": format!("{rel:#x}"), "reference": format!("{exp:?}")}));
+            compare(l, "record-selection", &exp, res, &m, &|| json!({"file": text, "lookup_rel": format!("{rel:#x}"), "callee_ebx_known": c.ebx.is_some(), "reference": format!("{exp:?}")}));
+        }
         }
     };
     let desc = move |idx: u64| json!({"file": g2(idx).0, "lookups_rel": REC_LOOKUPS});
@@ -980,7 +984,7 @@ fn main() {
             "carve-out: operands left on the stack at the end, overflow while forming .raSearch ($esp + frame_size, $ebp + 4), a frame-size overflow that the '@' rule makes irrelevant, and FPO without ebp pushed when the callee's ebp is unknown: the computed registers or a clean failure are both accepted".into(),
             "FPO with extreme size fields: frame_size = locals + saved + grand-callee parameters beyond u32 must fail cleanly, and so must a return slot $esp + frame_size (the documented plain sum, computed without wrapping) at or past 2^32: no such address exists on the 32-bit machine, and the property demands a clean failure for extreme size fields (reading the word at the wrapped address, below the callee's $esp, is not the documented formula). Carve-out, totality only: the return address in the LAST word of the address space (the caller's $esp would be exactly 2^32: fail or wrap to 0 undocumented) and the leftover-return-address skip stepping past that word (the skip is only named in prose)".into(),
             "x86-walk_stack-chains: the reference walk uses, besides vh::refwin, what x86.rs / lib.rs state in comments: CFI first, then the frame pointer (%ip = *(%bp+4), %bp = *%bp, %sp = %bp+8); the walk ends at a return address below 4096, a stack pointer that does not grow or lies outside the stack memory; a frame has a grand callee iff it is not the context frame, whether or not that grand callee could be symbolicated (FrameWalker::has_grand_callee: 'whether the callee has a callee of its own'; the leftover-return-address skip is for the context frame only); the grand callee's parameter size is its STACK WIN record's when it has one, else its FUNC record's, else 0. Where the continuation would need stack scanning or a record outcome is open, only the determined prefix of the chain is compared. f and main always carry FUNC records (without one the implementation does not attach the STACK WIN parameter size; not covered)".into(),
-            "two-records: exact duplicate ranges with different contents, and a failing frame-data record while an FPO record also covers the address, are not determined; inconsistent type/has_program and types other than 0/4 are discarded (parser.rs comments)".into(),
+            "two-records: exact duplicate ranges with different contents, are not determined; a failing frame-data record is NOT replaced by an FPO record covering the same address (walk_frame: framedata preferred, then STACK CFI); inconsistent type/has_program and types other than 0/4 are discarded (parser.rs comments)".into(),
             "x86 walk_stack: each step is judged against the reference evaluated on the OBSERVED callee frame, so one defect is not counted again in later steps; the menu only contains records that assign eip >= 4096 and a larger esp (the unwinder's own end-of-stack tests are C05's)".into(),
             "mock-level clear_caller_register calls are not compared; the documented effect (unassigned registers unknown in the caller) is judged only through the real walker".into(),
         ];
